@@ -5,11 +5,17 @@
      C.slots[i] = [next, prev, key, val, used]     slot ids 1..Len(slots), 0 = NULL
      C.heads    = function bucket -> slot id        (only buckets ever touched are stored)
      C.free     = head of the free list, C.size, C.cap, C.nalloc (number of allocated blocks)
-   Keys are msb*256 + lsb + 32768*percussive; values map instrument index -> token (0 = blank). *)
+   Keys are msb*256 + lsb + 32768*percussive; values map instrument index -> token (0 = blank).
+   A bank holds the instruments 0..127: the instrument API (opn2_getInstrument / opn2_setInstrument) rejects every other
+   index with -1 and leaves every bank as it was (the slots lie side by side in one allocation block, so a write at
+   index 128 would land on the header and the first instrument of the NEXT slot).  Indices are unsigned in the API:
+   negative numbers stand for the values from 2^31 up (-1 = UINT_MAX). *)
 EXTENDS Common, TLC
 
 Hash(key) == ((key % 128) + ((key \div 256) * 128)) % 256
 MinAlloc == 4
+InsCount == 128
+InsIdxOk(idx) == idx >= 0 /\ idx < InsCount
 BlankVal == <<>>            \* sequence of <<idx, token>> pairs written so far (absent = blank)
 
 C0 == [slots |-> <<>>, heads |-> <<>>, free |-> 0, size |-> 0, cap |-> 0, nalloc |-> 0]
@@ -101,7 +107,9 @@ ApiStep(C, op) ==
          ELSE LET ir == Insert(C, op.key, op.mode = "create") IN [c |-> ir.c, r |-> IF ir.s = 0 THEN -1 ELSE 0]
     [] op.o = "remove" -> LET s == BucketFind(C, op.key) IN IF s = 0 THEN [c |-> C, r |-> -1] ELSE [c |-> Erase(C, s), r |-> 0]
     [] op.o = "setins" -> LET s == BucketFind(C, op.key) IN
-                          IF s = 0 THEN [c |-> C, r |-> -1] ELSE [c |-> [C EXCEPT !.slots[s].val = ValSet(@, op.idx, op.tok)], r |-> 0]
+                          IF s = 0 \/ ~InsIdxOk(op.idx) THEN [c |-> C, r |-> -1]
+                          ELSE [c |-> [C EXCEPT !.slots[s].val = ValSet(@, op.idx, op.tok)], r |-> 0]
+    [] op.o = "getins" -> [c |-> C, r |-> IF BucketFind(C, op.key) # 0 /\ InsIdxOk(op.idx) THEN 0 ELSE -1]
     [] op.o = "clear" -> [c |-> Clear(C), r |-> 0]
     [] OTHER -> [c |-> C, r |-> 0]
 \* the same call on the abstract map
